@@ -483,7 +483,17 @@ func (s *TxStore) logTx(e string) {
 	s.TxLog = append(s.TxLog, e)
 	s.tmu.Unlock()
 }
+
+// The transaction travels in the context BeginTX returned (storage.Transactional: "the context
+// returned by BeginTX must be propagated"): a commit or rollback called with any other context
+// finds no transaction, does nothing and says so.
+var errNoTxInContext = errors.New("no transaction in this context")
+
 func (s *TxStore) Commit(ctx context.Context) error {
+	if ctx.Value(txKeyT{}) == nil {
+		s.logTx("commit_outside_tx")
+		return errNoTxInContext
+	}
 	if _, err := s.pre(ctx, "Commit", nil); err != nil {
 		s.logTx("commit_fail")
 		return err
@@ -495,6 +505,10 @@ func (s *TxStore) Commit(ctx context.Context) error {
 	return nil
 }
 func (s *TxStore) Rollback(ctx context.Context) error {
+	if ctx.Value(txKeyT{}) == nil {
+		s.logTx("rollback_outside_tx")
+		return errNoTxInContext
+	}
 	_, err := s.pre(ctx, "Rollback", nil)
 	s.tmu.Lock()
 	defer s.tmu.Unlock()
